@@ -49,7 +49,7 @@ func boundsObligations(c *core.Ctx, rule string, pkgs []string) int {
 					if u.Kind == "make" {
 						detail += fmt.Sprintf("length %s comes from decoded bytes and sizes an allocation without an upper bound test on every path", u.Var.Name())
 					} else {
-						detail += fmt.Sprintf("length %s comes from decoded bytes and bounds %s[...] without a test against len(%s) on every path", u.Var.Name(), u.Base, u.Base)
+						detail += fmt.Sprintf("length %s comes from decoded bytes and bounds %s[...] without a test against len(%s) on every path (a test that does arithmetic on the length in a type where it can wrap around does not count)", u.Var.Name(), u.Base, u.Base)
 					}
 				}
 				c.Check(rule, fmt.Sprintf("%s#%d", k, cnt[k]), c.P.Pos(u.Ev.Pos()), u.LowerOK && u.UpperOK, detail)
